@@ -294,14 +294,14 @@ def _search_prop(pid, harnesses, functions, quick_heavy):
         # quick: the cheap harnesses only -- the heavy ones need 12-20 min each on an idle machine
         return [h for h in hs if h not in HEAVY]
     PROPS[pid] = dict(select=select, witnesses=[S + "c09_depth1_witness", S + "c08_driver_witness", S + "c09_quiescence_witness"],
-                      thorough_witnesses=[S + "c09_depth1_witness", S + "c08_driver_witness", S + "c09_quiescence_witness", S + "c06_entry_witness"], timeout=3300, jobs=3, tag="[%s]" % pid,
+                      thorough_witnesses=[S + "c09_depth1_witness", S + "c08_driver_witness", S + "c09_quiescence_witness", S + "c06_entry_witness"], timeout=3300, jobs=2, tag="[%s]" % pid,
                       stubbed_prefixes=[S], sys_replays=SYS, functions=functions, bounds=SEARCH_BOUNDS, assumptions=SEARCH_ASSUME, native_replay=True)
 
 
 _search_prop("C06", [ENTRY_CHEAP[0], ENTRY_CHEAP[5], ENTRY_CHEAP[1]] + ENTRY + DRIVER + NODE[1:2], ["search::get_best_move_entry", "search::get_best_move_until_stop", "search::get_best_move_score (table entry it leaves)"], [])
 _search_prop("C07", [ENTRY_CHEAP[0]] + ENTRY_CHEAP[2:5] + ENTRY[1:3] + DRIVER, ["search::get_best_move_entry (`?` propagation)", "search::get_best_move_until_stop", "search::get_best_move_score (stop poll at node entry)"], [])
 _search_prop("C08", ENTRY_CHEAP[2:4] + DRIVER + ENTRY[1:2], ["search::get_best_move_until_stop", "search::get_best_move_entry (killer table it allocates)"], [])
-_search_prop("C09", NODE[1:5] + DEPTH1 + QUIES + ENTRY[2:3], ["search::get_best_move_score", "search::get_best_move_score_depth_1", "search::quiescence_search", "search::get_best_move_entry", "search::move_score (through the sort)", "Move::{is_tactical_move,index_history}"], [])
+_search_prop("C09", [NODE[1], NODE[3]] + DEPTH1 + QUIES + ENTRY[2:3], ["search::get_best_move_score", "search::get_best_move_score_depth_1", "search::quiescence_search", "search::get_best_move_entry", "search::move_score (through the sort)", "Move::{is_tactical_move,index_history}"], [])
 _search_prop("C10", NOMOVES + DRIVER + ENTRY_CHEAP[2:4] + ENTRY[:1], ["search::get_best_move_score (no-move rule)", "search::get_best_move_score_depth_1 (no-move rule)", "search::quiescence_search (no-move rule)", "search::get_best_move_until_stop (stop on mate score)", "search::get_best_move_entry (root without moves)"], [])
 _search_prop("C18", DRIVER + NODE[1:2], ["search::get_best_move_until_stop (line reconstruction)", "search::get_best_move_score (the cached move it leaves is one of the node's moves)"], [])
 
